@@ -27,6 +27,7 @@ REQUIRED = [
     "plan_total", "escape_clean", "escape_roundtrip_partial", "escape_roundtrip_not_full",
     "value_roundtrip_partial", "module_name_partial", "module_name_not_full",
     "imports_line_roundtrip_partial", "imports_line_not_full",
+    "graph_sources_total", "graph_wf", "graph_deps_closed", "graph_checked_once",
 ]
 
 SCRATCH = os.path.join(common.BUILD, "c19")
@@ -79,32 +80,108 @@ def case_line(op, case, groups=None):
   return "%s %s %s %s" % (op, req, case["kinds"] or "-", gs)
 
 
-def graph_expected_sources(case):
-  """What deps_from_import_graph must return for the fake graph of a graph-mode case: groups with
-  members sorted by file name; deps = members of the dep groups (each sorted), de-duplicated."""
+def stub_path(k):
+  return "/stubs/st%02d.pyi" % k
+
+
+def graph_nodes(case):
+  """The import graph a graph-mode case stands for, dependencies first: [(files, [dep node indices])], a file being
+  ("m", module id) or ("s", stub id).  Without case["stubs"] there is one node per group.  With it
+  (stubs: [{"at": p, "g": -1 | gi}, ..], sdeps: {node key: [stub ids]}) a stand-alone stub `k` ("g" == -1) is a node of
+  its own placed before group `at` (its source deps are case["stubs"][k]["d"], its stub deps ["sd"]); a stub with
+  "g" == gi is a member of group gi's node (an import cycle that runs through a type stub); case["gsd"][str(gi)]
+  are the stubs group gi's node imports."""
   groups = case["groups"]
-  gid = {}
-  for gi, (g, _) in enumerate(groups):
-    for m in g:
-      gid[m] = gi
+  stubs = case.get("stubs") or []
+  gid = {m: gi for gi, (g, _) in enumerate(groups) for m in g}
+  nodes, gnode, snode = [], {}, {}
+  for gi in range(len(groups) + 1):
+    for k, st in enumerate(stubs):
+      if st["g"] == -1 and st["at"] == gi:
+        snode[k] = len(nodes)
+        nodes.append([[("s", k)], ("s", k)])
+    if gi < len(groups):
+      gnode[gi] = len(nodes)
+      files = [("m", m) for m in groups[gi][0]]
+      for k, st in enumerate(stubs):
+        if st["g"] == gi:
+          snode[k] = len(nodes)
+          files.append(("s", k))
+      nodes.append([files, ("g", gi)])
   out = []
-  for g, d in groups:
-    members = sorted(g, key=lambda i: full_path(case, i))
-    dep_groups = []
-    for x in d:
-      if gid[x] not in dep_groups:
-        dep_groups.append(gid[x])
+  for files, (kind, idx) in nodes:
+    if kind == "g":
+      dmods, dstubs = groups[idx][1], (case.get("gsd") or {}).get(str(idx), [])
+    else:
+      dmods, dstubs = stubs[idx].get("d", []), stubs[idx].get("sd", [])
+    dn = []
+    for x in dmods:
+      if gnode[gid[x]] not in dn:
+        dn.append(gnode[gid[x]])
+    for k in dstubs:
+      if snode[k] not in dn:
+        dn.append(snode[k])
+    out.append((files, dn))
+  return out
+
+
+def file_name(case, f):
+  return full_path(case, f[1]) if f[0] == "m" else stub_path(f[1])
+
+
+def graph_expected_sources(case):
+  """What deps_from_import_graph must return for the fake graph of a graph-mode case: one entry per node that has
+  sources, members sorted by file name (type stubs are not analysed: dropped); deps = the sources among the files of
+  the dep nodes (each node's files sorted, de-duplicated), followed by what every stub among them stands for: the
+  source deps of the stub's own node and, transitively, of the stubs that node imports."""
+  nodes = graph_nodes(case)
+  stub_src = {}  # stub id -> the sources it stands for
+  out = []
+  for files, dn in nodes:
     flat = []
-    for gi in dep_groups:
-      for m in sorted(groups[gi][0], key=lambda i: full_path(case, i)):
-        if m not in flat:
-          flat.append(m)
-    out.append([members, flat])
+    for j in dn:
+      for f in sorted(nodes[j][0], key=lambda f: file_name(case, f)):
+        if f not in flat:
+          flat.append(f)
+    src = [f[1] for f in flat if f[0] == "m"]
+    inherited = [m for f in flat if f[0] == "s" for m in stub_src[f[1]]]
+    for f in files:
+      if f[0] == "s":
+        stub_src[f[1]] = src + inherited
+    members = [f[1] for f in sorted(files, key=lambda f: file_name(case, f)) if f[0] == "m"]
+    if members:
+      out.append([members, src + inherited])
   return out
 
 
 def model_groups(case):
-  return graph_expected_sources(case) if case["mode"] == "graph" else case["groups"]
+  """the planner's input: graph-mode cases go through the Lean model of deps_from_import_graph (answer of the driver's
+  `graph` command, stored by run_cases); direct cases name the groups themselves"""
+  if case["mode"] != "graph":
+    return case["groups"]
+  return case["_lean_groups"] if "_lean_groups" in case else graph_expected_sources(case)
+
+
+def graph_line(case):
+  """the driver query for the import graph of a graph-mode case (files of a node in file-name order, as
+  `_get_filenames` delivers them)"""
+  ns = []
+  for files, dn in graph_nodes(case):
+    fs = sorted(files, key=lambda f: file_name(case, f))
+    ns.append(",".join("%s%d" % f for f in fs) + "|" + ",".join(map(str, dn)))
+  return "graph %s %s" % (case["kinds"] or "-", ";".join(ns) or "-")
+
+
+def parse_graph_answer(ans):
+  t = ans.split(" ")
+  if len(t) != 3 or t[0] != "ok":
+    return None, None
+  gs = []
+  if t[2] != "-":
+    for g in t[2].split(";"):
+      a, b = g.split("|")
+      gs.append([[int(x) for x in a.split(",") if x], [int(x) for x in b.split(",") if x]])
+  return t[1] == "1", gs
 
 
 # ----------------------------------------------------------------------------------------------
@@ -162,20 +239,12 @@ class FakeGraph:
     for i in range(len(case["kinds"])):
       self.provenance[full_path(case, i)] = _RESOLVED[mod_kind(case, i)](
           full_path(case, i), mod_target(case, i), mod_name(case, i))
-    nodes = []
-    gid = {}
-    for gi, (g, _) in enumerate(case["groups"]):
-      fs = [full_path(case, i) for i in g]
-      nodes.append(fs[0] if len(fs) == 1 else _NodeSet(fs))
-      for m in g:
-        gid[m] = gi
-    self._list = []
-    for gi, (g, d) in enumerate(case["groups"]):
-      dg = []
-      for x in d:
-        if gid[x] not in dg:
-          dg.append(gid[x])
-      self._list.append((nodes[gi], [nodes[j] for j in dg]))
+    objs = []
+    spec = graph_nodes(case)
+    for files, _ in spec:
+      fs = [file_name(case, f) for f in files]
+      objs.append(fs[0] if len(fs) == 1 else _NodeSet(fs))
+    self._list = [(objs[i], [objs[j] for j in dn]) for i, (_, dn) in enumerate(spec)]
 
   def deps_list(self):
     return list(reversed(self._list))  # dependents first, as nx.topological_sort over import edges
@@ -479,9 +548,17 @@ def compare(case, real, model_line, yield_line, lean):
   bad = []
   out = real["out"]
   if case["mode"] == "graph" and "sorted" in real:
-    exp = graph_expected_sources(case)
+    exp = model_groups(case)
     if real["sorted"] != exp:
-      bad.append("deps_from_import_graph returned %r, contract expects %r" % (real["sorted"], exp))
+      bad.append("deps_from_import_graph returned %r, the Lean model (Plan/Graph.lean) gives %r" % (real["sorted"], exp))
+    if exp != graph_expected_sources(case):
+      bad.append("Lean model of deps_from_import_graph gives %r, the contract as the harness states it %r" % (
+          exp, graph_expected_sources(case)))
+    if case.get("_lean_topo") is False:
+      bad.append("premise `topo` of graph_deps_closed does not hold for the generated graph")
+    ids = [m for g, _ in exp for m in g]
+    if len(ids) != len(set(ids)):
+      bad.append("premise of graph_wf (distinct source files) does not hold for the generated graph")
     seen = set()
     for g, d in real["sorted"]:
       if not set(d) <= seen:
@@ -819,6 +896,63 @@ def random_structure(rng, n, violate=0.0):
   return groups
 
 
+def add_stubs(rng, case):
+  """Adds 1-3 type stubs to a graph-mode case: stand-alone nodes (importing earlier sources and stubs) or members of a
+  group's node (a cycle through a stub); groups import stubs placed before them."""
+  groups = case["groups"]
+  G = len(groups)
+  stubs, gsd = [], {}
+  for k in range(rng.randrange(1, 4)):
+    if rng.random() < 0.4:
+      stubs.append({"at": 0, "g": rng.randrange(G)})
+    else:
+      at = rng.randrange(0, G + 1)
+      earlier = [m for g, _ in groups[:at] for m in g]
+      dg = []
+      for x in rng.sample(earlier, min(len(earlier), rng.randrange(0, 3))):
+        for (g, _) in groups:
+          if x in g:
+            dg += [y for y in g if y not in dg]
+      sd = [j for j, st in enumerate(stubs)
+            if (st["g"] == -1 and st["at"] <= at or st["g"] != -1 and st["g"] < at) and rng.random() < 0.5]
+      stubs.append({"at": at, "g": -1, "d": dg, "sd": sd})
+  for gi in range(G):
+    ok = [j for j, st in enumerate(stubs) if (st["g"] == -1 and st["at"] <= gi or st["g"] != -1 and st["g"] < gi)]
+    pick = [j for j in ok if rng.random() < 0.5]
+    if pick:
+      gsd[str(gi)] = pick
+  case["stubs"], case["gsd"] = stubs, gsd
+  return case
+
+
+def stub_family():
+  """Deterministic: two or three sources and one or two stubs in every position (stand-alone before / between / after,
+  inside a cycle), every request subset of the sources."""
+  out = []
+  shapes = [
+      # (groups, stubs, gsd)
+      ([[[0], []]], [{"at": 0, "g": 0}], {}),                                   # cycle {m0, stub}
+      ([[[0], []], [[1], [0]]], [{"at": 0, "g": 0}], {}),                       # m1 imports the mixed node
+      ([[[0], []], [[1], []]], [{"at": 0, "g": 0}], {"1": [0]}),                # m1 imports only the stub of it
+      ([[[0], []], [[1], [0]]], [{"at": 0, "g": 1}], {}),                       # mixed node has a source dep
+      ([[[0, 1], []]], [{"at": 0, "g": 0}], {}),                                # cycle of two sources and a stub
+      ([[[0, 1], []], [[2], [0, 1]]], [{"at": 0, "g": 0}], {}),
+      ([[[0], []], [[1], []]], [{"at": 1, "g": -1, "d": [0], "sd": []}], {"1": [0]}),   # stub between: inherits m0
+      ([[[0], []], [[1], []]], [{"at": 1, "g": -1, "d": [0], "sd": []},
+                                 {"at": 1, "g": -1, "d": [], "sd": [0]}], {"1": [1]}),   # stub chain
+      ([[[0], []], [[1], [0]]], [{"at": 2, "g": -1, "d": [1], "sd": []}], {}),           # stub after everything
+      ([[[0], []], [[1], []], [[2], []]], [{"at": 0, "g": 0}, {"at": 2, "g": -1, "d": [1], "sd": [0]}], {"2": [1]}),
+      ([[[0], []], [[1, 2], [0]]], [{"at": 0, "g": 1}, {"at": 0, "g": -1, "d": [], "sd": []}], {"1": [1]}),
+  ]
+  for groups, stubs, gsd in shapes:
+    n = sum(len(g) for g, _ in groups)
+    for mask in range(1 << n):
+      out.append({"kinds": "l" * n, "groups": [[list(g), list(d)] for g, d in groups],
+                  "req": [i for i in range(n) if mask >> i & 1], "names": None, "outdir": "out", "mode": "graph",
+                  "stubs": [dict(st) for st in stubs], "gsd": dict(gsd)})
+  return out
+
+
 ADV = [" ", ":", "$", "$$", " $", "\u00e9", "\u96ea", "\u00df", "-", "_", "{", "}", "#", "%", "'", "\"", "=", "$x", "${y}", "~",
        "\u00a0"]
 
@@ -878,6 +1012,11 @@ def _pool(n):
 
 def run_cases(cases, drv, base, procs):
   """phase 1: the model on every case; phase 2: the real code + comparison (parallel)."""
+  gcases = [c for c in cases if c["mode"] == "graph"]
+  for c, ans in zip(gcases, drv.batch([graph_line(c) for c in gcases]) if gcases else []):
+    topo_ok, gs = parse_graph_answer(ans)
+    assert gs is not None, (graph_line(c), ans)
+    c["_lean_groups"], c["_lean_topo"] = gs, topo_ok
   lines = []
   for c in cases:
     lines.append(case_line("plan", c, model_groups(c)))
@@ -1105,10 +1244,14 @@ def build_cases(rng, tier):
           if y not in full:
             full.append(y)
       g[1] = full
-    add({"kinds": random_kinds(rng, n), "groups": groups,
-         "req": [i for i in range(n) if rng.random() < 0.4], "names": None, "outdir": "out", "mode": "graph"},
-        "graph")
+    c = {"kinds": random_kinds(rng, n), "groups": groups,
+         "req": [i for i in range(n) if rng.random() < 0.4], "names": None, "outdir": "out", "mode": "graph"}
+    if rng.random() < 0.5:
+      add_stubs(rng, c)
+    add(c, "graph+stubs" if c.get("stubs") else "graph")
     g_ok += 1
+  for c in stub_family():
+    add(c, "graph-stub-family")
   for _ in range(250 if tier == "quick" else 3000):
     add(adversarial_case(rng), "adversarial")
   return cases, tags
@@ -1138,7 +1281,8 @@ def correspond(res, rng, tier):
     for (idx, bad, nsteps, two, err) in results:
       c = cases[idx]
       if bad:
-        disagreements.append({"kind": "plan", "tag": tags[idx], "case": c, "mismatch": bad[:4],
+        disagreements.append({"kind": "plan", "tag": tags[idx], "case": {k: v for k, v in c.items() if k[0] != "_"},
+                              "mismatch": bad[:4],
                               "model": outp[2 * idx][:600]})
       if nsteps >= 2:
         nontrivial.add(outp[2 * idx] + "|" + str(c.get("names")))
@@ -1171,7 +1315,7 @@ def correspond(res, rng, tier):
         "structures_n4": len(list(structures(4))),
     })
     res.add_samples([
-        {"case": cases[len(cases) // 3], "model": outp[2 * (len(cases) // 3)][:300]},
+        {"case": {k: v for k, v in cases[len(cases) // 3].items() if k[0] != "_"}, "model": outp[2 * (len(cases) // 3)][:300]},
         {"case": adv[0] if adv else None},
     ])
   finally:
